@@ -82,7 +82,8 @@ def events (before after : S) : List String :=
       && (groupMembersIdx before g).length == ms.length
     if doneNow && !doneBefore then
       if ms.any (fun pc => pc.2.res == some .sendErr || pc.2.res == some .abandoned) then some s!"mdone {g}=err"
-      else some s!"mdone {g}={",".intercalate (ms.map (fun pc => (pc.2.res.map showRes).getD "?"))}"
+      -- the vector `multi_call` returns: the model's result vector (written through the threaded slots)
+      else some s!"mdone {g}={",".intercalate (((after.mresults[g]?).getD []).map (fun r => (r.map showRes).getD "?"))}"
     else none)
   single ++ groups
 
